@@ -24,6 +24,7 @@ def jobs_for(ctx):
     jobs = []
     if not ctx.thorough:
         jobs.append(dict(tag="xw2", cfg=c06.gen_cfg(edits=2, acts=("wrap", "base"), focus=c06.ALL_FOCUS, **clean), workers=4))
+        jobs.append(dict(tag="xadd", cfg=c06.gen_cfg(edits=3, acts=("add",), focus=c06.ALL_FOCUS, **clean), workers=2))
         for k in range(4):
             jobs.append(dict(tag="wsim%d" % k, simulate=35, depth=9, seed=s * 100 + k,
                              cfg=c06.gen_cfg(ginds=(0, 2, 4), rsteps=(0, 2), edits=8, acts=acts, focus=c06.ALL_FOCUS, sim=True, **clean)))
@@ -32,6 +33,7 @@ def jobs_for(ctx):
                              cfg=c06.gen_cfg(edits=5, acts=("wrap", "base"), focus=c06.ALL_FOCUS, sim=True, **clean)))
     else:
         jobs.append(dict(tag="xw2", cfg=c06.gen_cfg(edits=2, acts=("wrap", "base"), focus=c06.ALL_FOCUS, **clean), workers=4))
+        jobs.append(dict(tag="xadd", cfg=c06.gen_cfg(edits=4, acts=("add",), focus=c06.ALL_FOCUS, **clean), workers=2))
         jobs.append(dict(tag="xs1", cfg=c06.gen_cfg(edits=1, acts=("scalar",), focus=("expr", "alert", "annotations.v"), **clean)))
         for k in range(12):
             jobs.append(dict(tag="wsim%d" % k, simulate=300, depth=10, seed=s * 100 + k,
@@ -77,7 +79,7 @@ def run(ctx, cases_override=None):
     rules = 0
     for c in cases:
         w = c["lay"]["wrap"]
-        shapes.add((c["lay"]["base"], tuple((lv["seq"], lv["key"], lv["step"], lv["sibB"], lv["sibA"]) for lv in w["levels"]),
+        shapes.add((c["lay"]["base"], tuple((lv["seq"], lv["key"], lv["step"], lv["sibB"], lv["sibA"], lv["sl"]) for lv in w["levels"]),
                     w["embed"], w["docB"], w["docA"]))
         rules += len(c["lay"]["rules"])
     sample = wrapped[len(wrapped) // 3] if wrapped else cases[0]
@@ -93,6 +95,10 @@ def run(ctx, cases_override=None):
         "pairs": len(cases), "distinct_wrappers": len(shapes), "rules_compared": rules,
         "levels_hist": {str(k): sum(1 for c in cases if len(c["lay"]["wrap"]["levels"]) == k) for k in range(5)},
         "embedded": sum(1 for c in cases if c["lay"]["wrap"]["embed"]),
+        "with_sequence_level": sum(1 for c in cases if any(lv["seq"] for lv in c["lay"]["wrap"]["levels"])),
+        "with_sibling_rule_list": sum(1 for c in cases if any(lv["sl"] for lv in c["lay"]["wrap"]["levels"])),
+        "with_alias_rule": sum(1 for c in cases if any(r["alias"] for r in c["lay"]["rules"])),
+        "with_group_header_keys": sum(1 for c in cases if c["lay"]["ghdr"]),
         "states": sum(g["states"] or 0 for g in gstats),
         "explanation": "exploration over a TLA+-generated layout/wrapper grammar with a TLA+-evaluated oracle; no system state machine is "
                        "model-checked. Part xw2 is exhaustive: every wrapper reachable by two wrapper edits around the base document "
@@ -107,5 +113,4 @@ def run(ctx, cases_override=None):
 
 
 def replay(ctx, path):
-    v = json.load(open(path))
-    return run(ctx, cases_override=[dict(v["case"])])
+    return run(ctx, cases_override=c06.render_replay(ctx, path))
